@@ -32,7 +32,9 @@ fn gen_case(mode: &str, seed: u64, idx: u64, tier: &str) -> Case {
             p.max_space = p.max_space.min(20_000.0);
             gen::gen_model(&mut r, &p)
         }
+        "c17" if idx % 8 == 5 => gen::gen_cumul_profiles(&mut r),
         "c01" | "c04" | "c17" | "c20" if idx % 5 == 2 => gen::gen_model(&mut r, &Profile::clause_heavy()),
+        "c02" if idx % 20 == 7 => gen::gen_deep_chain(&mut r),
         "c02" => {
             if idx % 5 == 0 {
                 gen::gen_model(&mut r, &Profile::clause_heavy())
@@ -44,7 +46,9 @@ fn gen_case(mode: &str, seed: u64, idx: u64, tier: &str) -> Case {
         }
         "c07" => {
             extra = Json::obj([("k", Json::Int(if thorough { 40 } else { 8 }))]);
-            if idx % 5 == 0 {
+            if idx % 10 == 3 {
+                gen::gen_deep_chain(&mut r)
+            } else if idx % 5 == 0 {
                 gen::gen_model(&mut r, &Profile::clause_heavy())
             } else {
                 // (each model is solved under up to 40 configurations, some of which run into the poll
@@ -179,11 +183,13 @@ fn gen_case(mode: &str, seed: u64, idx: u64, tier: &str) -> Case {
 fn run_case(mode: &str, case: &Case) -> Outcome {
     match mode {
         "c01" => props_a::run_c01(case),
+        "c02" if case.model.vars.len() > 400 => props_a::run_c02_deep(case),
         "c02" => props_a::run_c02(case),
         "c03" => props_a::run_c03(case),
         "c04" => props_a::run_c04(case),
         "c05" => props_a::run_c05(case),
         "c12" => props_a::run_c12(case),
+        "c07" if case.model.vars.len() > 400 => props_b::run_c07_deep(case),
         "c07" => props_b::run_c07(case),
         "c08" => props_b::run_c08(case),
         "c09" => props_b::run_c09(case),
